@@ -85,6 +85,32 @@ func (f *FnEnc) set(v ssa.Value, x Val) {
 	f.vals[v] = f.e.nameVal(f.name(v), x)
 }
 
+// rootsAtAlloc: the address lies inside an object allocated by this function.
+func rootsAtAlloc(a ssa.Value) bool {
+	for {
+		switch x := a.(type) {
+		case *ssa.FieldAddr:
+			a = x.X
+		case *ssa.IndexAddr:
+			if _, isPtr := x.X.Type().Underlying().(*types.Pointer); !isPtr {
+				if mk, ok := x.X.(*ssa.MakeSlice); ok {
+					_ = mk
+					return true
+				}
+				return false
+			}
+			a = x.X
+		case *ssa.Alloc:
+			return true
+		default:
+			return false
+		}
+	}
+}
+
+// isLocalElemwiseArray: a local array variable that is filled element by element (through
+// element addresses or slices of it). Its value as a unit is then a function of its cells.
+// A local array that is only READ elementwise keeps unit semantics (its stored value).
 func (f *FnEnc) isLocalElemwiseArray(v ssa.Value) bool {
 	a, ok := v.(*ssa.Alloc)
 	if !ok {
@@ -93,7 +119,35 @@ func (f *FnEnc) isLocalElemwiseArray(v ssa.Value) bool {
 	if _, isArr := derefType(a.Type()).Underlying().(*types.Array); !isArr {
 		return false
 	}
-	return true
+	if r, ok := f.elemwise[a]; ok {
+		return r
+	}
+	res := false
+	if refs := a.Referrers(); refs != nil {
+		for _, r := range *refs {
+			switch x := r.(type) {
+			case *ssa.Slice:
+				res = true // a slice of it can be written through by anyone holding it
+			case *ssa.IndexAddr:
+				if xr := x.Referrers(); xr != nil {
+					for _, u := range *xr {
+						if ld, ok := u.(*ssa.UnOp); ok && ld.Op == token.MUL {
+							continue // element read
+						}
+						if _, ok := u.(*ssa.DebugRef); ok {
+							continue
+						}
+						res = true
+					}
+				}
+			}
+		}
+	}
+	if f.elemwise == nil {
+		f.elemwise = map[*ssa.Alloc]bool{}
+	}
+	f.elemwise[a] = res
+	return res
 }
 
 // execInstr encodes one instruction. Returns true when the block ends abnormally.
@@ -214,10 +268,9 @@ func (f *FnEnc) execInstr(ins ssa.Instruction) bool {
 	case *ssa.Store:
 		val := f.val(v.Val)
 		if c, ok := val.(ClosureV); ok {
-			if len(c.Bindings) != 0 {
-				e.unsup("closure stored to memory")
-			}
-			val = e.funcRef(c.Fn)
+			// stored closures become opaque non-nil function values: a later call through the
+			// stored value is a call through an unknown function value (everything havocked then)
+			val = e.closureRef(c)
 		}
 		if _, ok := val.(FieldPtr); ok {
 			e.hazard("address of scalar field stored to memory")
@@ -232,7 +285,7 @@ func (f *FnEnc) execInstr(ins ssa.Instruction) bool {
 				e.unsup("big.Int struct copy")
 			}
 			if f.viewElem[typeKey(t.Underlying())] {
-				if _, isAlloc := v.Addr.(*ssa.Alloc); !isAlloc {
+				if !rootsAtAlloc(v.Addr) {
 					f.setTaint("store to a " + t.String() + " cell while a non-local array of that element type is viewed elementwise")
 				}
 			}
@@ -422,7 +475,7 @@ func (f *FnEnc) zeroInitSlice(base Term, elem types.Type) {
 	c := e.cellComp(elem, leaf{"", s, elem})
 	old := e.lookup(f.st, c)
 	nv := e.freshConst(c.Name+"'mk", c.Sort)
-	e.fact(Term{fmt.Sprintf("(forall ((r Int)) (! (= (select %s r) (ite (= (elembase r) %s) %s (select %s r))) :pattern ((select %s r))))", nv.S, base.S, z.S, old.S, nv.S), SBool})
+	e.fact(Term{fmt.Sprintf("(forall ((r Int)) (! (= (select %s r) (ite (and (= (rtag r) 1) (= (elembase r) %s)) %s (select %s r))) :pattern ((select %s r))))", nv.S, base.S, z.S, old.S, nv.S), SBool})
 	f.st.H[c.Name] = nv
 }
 
@@ -453,6 +506,15 @@ func (f *FnEnc) execUnOp(v *ssa.UnOp) bool {
 				return false
 			}
 			f.set(v, e.loadAt(f.st, a, t))
+			if g, ok := v.X.(*ssa.Global); ok && e.R.nonNilGlobals[g] {
+				if lt, ok := f.vals[v].(Term); ok && lt.Sort == SInt {
+					e.fact(tNot(tEq(lt, tInt(0)))) // initialised once with a non-nil value
+					if k, ok := e.R.bigGlobals[g]; ok {
+						// A-bigconst: package-level big.Int constants (common.Big0 ...) are never mutated
+						f.assume(tEq(tSelect(e.lookup(f.st, e.bigvalComp()), lt), tBig(k)))
+					}
+				}
+			}
 		default:
 			e.unsup("load through %T", a)
 		}
@@ -894,7 +956,7 @@ func (f *FnEnc) binop(op token.Token, x, y Val, xt, yt, rt types.Type, pos token
 	case token.SUB:
 		return wrapTerm(tSub(a, b), rb)
 	case token.MUL:
-		return wrapTerm(app(SInt, "*", a, b), rb)
+		return wrapTerm(e.tMul(a, b), rb)
 	case token.QUO:
 		f.safety("div0", tNot(tEq(b, tInt(0))), pos, "")
 		return wrapTerm(truncDiv(a, b, isUnsigned(rt)), rb)
